@@ -375,4 +375,42 @@ MUTANTS = [
       "                head.hash(state);\n                tail.hash(state);",
       "                head.hash(state);",
       {"C03": "hash|variant=Cons"}),
+    M("c19-f11-returns", ["C19"], "src/relation/clpz/plusz.rs",
+      "if u + v == *w {", "if u * v == *w {", {"C19": "equation=NNN"}),
+    M("c19-f10-returns", ["C19"], "src/relation/clpz/plusz.rs",
+      "            (LTermInner::Var(_, _), LTermInner::Var(_, _), LTermInner::Var(_, _))\n            | (LTermInner::Var(_, _), LTermInner::Var(_, _), LTermInner::Val(LValue::Number(_)))",
+      "            (LTermInner::Var(_, _), LTermInner::Var(_, _), LTermInner::Val(LValue::Number(_)))",
+      {"C19": "covers=VVV"}),
+    M("c19-f12-inexact", ["C19"], "src/relation/clpz/timesz.rs",
+      "                        (Some(0), Some(v)) => {", "                        (Some(_), Some(v)) => {", {"C19": "equation=NVN"}),
+    M("c19-f12-zero-drops-constraint", ["C19"], "src/relation/clpz/timesz.rs",
+      "                        /* u * 0 = 0 holds for every u: keep the constraint. */\n                        Ok(state.with_constraint(self))",
+      "                        /* u * 0 = 0 holds for every u: keep the constraint. */\n                        Ok(state)",
+      {"C19": "VNN"}),
+    M("c19-wrong-inverse", ["C19"], "src/relation/clpz/plusz.rs",
+      "LTerm::from(w - u)", "LTerm::from(u - w)", {"C19": "equation=NVN"}),
+    M("c19-no-rerun", ["C19", "C04"], "src/relation/clpz/plusz.rs",
+      "                    .extend(wwalk.clone(), LTerm::from(u + v));\n                state.run_constraints()",
+      "                    .extend(wwalk.clone(), LTerm::from(u + v));\n                Ok(state)",
+      {"C19": "rerun", "C04": "rerun"}),
+    M("c19-binds-wrong-operand", ["C19"], "src/relation/clpz/timesz.rs",
+      "                    .extend(wwalk.clone(), LTerm::from(u * v));",
+      "                    .extend(vwalk.clone(), LTerm::from(u * v));",
+      {"C19": "equation=NNV"}),
+    M("c19-plain-div-guarded-ok", ["C19"], "src/relation/clpz/timesz.rs",
+      """                    match (w.checked_rem(*v), w.checked_div(*v)) {
+                        (Some(0), Some(u)) => {
+                            state.smap_to_mut().extend(uwalk.clone(), LTerm::from(u));
+                            state.run_constraints()
+                        }
+                        /* No integer u with u * v = w. */
+                        _ => Err(()),
+                    }""",
+      """                    if w % v == 0 {
+                        state.smap_to_mut().extend(uwalk.clone(), LTerm::from(w / v));
+                        state.run_constraints()
+                    } else {
+                        Err(())
+                    }""",
+      silent=True),
 ]
